@@ -345,3 +345,77 @@ Proof.
   destruct (closed_after_any_close exd_fcfg (firstn 3 exd_fops) (skipn 4 exd_fops)) as (_ & H).
   eapply Forall_impl; [|exact H]. intros x (A & _). exact A.
 Qed.
+
+(* ---- BlockWriteOpener: an opener history is the plain history of its committed blocks -------------------- *)
+Lemma dx_run_cons c xs op t : dx_run c xs (op :: t) = dx_run c (fst (dx_step c xs op)) t.
+Proof. reflexivity. Qed.
+
+(* the deferred writer behind an opener history is in the state the flattened history leads to *)
+Theorem dx_run_flatten c ops : forall xs,
+  dx_st (dx_run c xs ops) = d_run c (dx_st xs) (dx_flatten (dx_bufs xs) ops).
+Proof.
+  induction ops as [|op t IH]; intros xs; [reflexivity|]. rewrite dx_run_cons, IH. cbn [dx_flatten].
+  unfold dx_step. destruct (dx_eff (dx_bufs xs) op) as [[o|] b'].
+  - destruct (d_step c (dx_st xs) o) as [st' r] eqn:E. cbn [fst dx_st dx_bufs]. rewrite d_run_cons, E. reflexivity.
+  - reflexivity.
+Qed.
+
+(* opening a writer, writing to it, and a committer that was already used do not touch the deferred
+   writer, fire no callback, and leave the output and the file as they were *)
+Theorem dx_idle_step c xs op b' :
+  dx_eff (dx_bufs xs) op = (None, b') ->
+  dx_st (fst (dx_step c xs op)) = dx_st xs /\ do_log (snd (dx_step c xs op)) = [] /\
+  d_bytes c (dx_st (fst (dx_step c xs op))) = d_bytes c (dx_st xs) /\
+  d_exists c (dx_st (fst (dx_step c xs op))) = d_exists c (dx_st xs).
+Proof. intros H. unfold dx_step. rewrite H. cbn [fst snd dx_st do_log]. auto. Qed.
+
+(* a first commit IS a Put of everything written to that writer *)
+Theorem dx_commit_is_put c xs h k buf :
+  buf_get h (dx_bufs xs) = Some (buf, false) ->
+  dx_st (fst (dx_step c xs (XCommit h k))) = fst (d_step c (dx_st xs) (DPut k buf)) /\
+  snd (dx_step c xs (XCommit h k)) = snd (d_step c (dx_st xs) (DPut k buf)).
+Proof.
+  intros H. unfold dx_step. cbn [dx_eff]. rewrite H. destruct (d_step c (dx_st xs) (DPut k buf)). auto.
+Qed.
+
+(* identical, for opener histories: the output is the direct writer's for the committed blocks (and the
+   plain Puts), in order; uncommitted writers contribute nothing *)
+Theorem dx_identical c ops s :
+  d_inner (dx_st (dx_run c dx_init ops)) = Some s ->
+  exists s0, direct_open c = Ok s0 /\
+             s = direct_run s0 (d_puts (dx_flatten [] ops)) (existsb is_close (dx_flatten [] ops)) /\
+             d_bytes c (dx_st (dx_run c dx_init ops)) = ws_file s.
+Proof.
+  rewrite dx_run_flatten. cbn [dx_init dx_st dx_bufs]. intros H.
+  destruct (identical_init c _ s H) as (s0 & H0 & H1). exists s0. split; [exact H0|]. split; [exact H1|].
+  unfold d_bytes. rewrite H. reflexivity.
+Qed.
+
+(* lazy, for opener histories: as long as nothing was committed (and no plain Put issued) before the
+   first Close, the output path is untouched -- however much was written to openers *)
+Theorem dx_lazy c ops :
+  d_puts (dx_flatten [] ops) = [] ->
+  d_bytes c (dx_st (dx_run c dx_init ops)) = pre_bytes c /\ d_exists c (dx_st (dx_run c dx_init ops)) = pre_exists c.
+Proof.
+  intros H. rewrite dx_run_flatten. cbn [dx_init dx_st dx_bufs]. set (fl := dx_flatten [] ops) in *.
+  assert (G : forall ops' st, idle st -> (if d_closed st then True else d_puts ops' = []) -> idle (d_run c st ops')).
+  { induction ops' as [|op t IH]; intros st Hi Hp; [exact Hi|]. rewrite d_run_cons.
+    assert (Hstep : d_closed st = true \/ is_put op = false).
+    { destruct (d_closed st); [left; reflexivity|right]. destruct op; try reflexivity. discriminate. }
+    apply IH; [apply idle_step; assumption|].
+    destruct (d_closed st) eqn:Hc.
+    - destruct (closed_step c st op Hc) as (_ & H1 & _). rewrite H1. exact I.
+    - destruct (d_closed (fst (d_step c st op))) eqn:Hc'; [exact I|].
+      destruct op; cbn [d_puts] in Hp; try exact Hp; try discriminate.
+      pose proof (close_closes c st). congruence. }
+  apply idle_obs. apply G; [split; reflexivity|exact H].
+Qed.
+
+Example C20_example_opener :
+  let ops := [XOpen 1; XWrite 1 [x01]; XD (DOnPut 7 false); XOpen 2; XWrite 2 [x09; x09; x09]; XD (DHas exd_k1);
+              XWrite 1 [x02]; XCommit 1 exd_k1; XCommit 1 exd_k1; XD (DPut exd_k3 [x03]); XD DClose; XCommit 2 exd_k3] in
+  dx_flatten [] ops = [DOnPut 7 false; DHas exd_k1; DPut exd_k1 [x01; x02]; DPut exd_k3 [x03]; DClose; DPut exd_k3 [x09; x09; x09]] /\
+  map (fun so => (do_res (snd so), do_log (snd so), blen (d_bytes exd_cfg (dx_st (fst so))))) (dx_trace exd_cfg dx_init ops)
+  = [(ONil, [], 0); (ONil, [], 0); (ONil, [], 0); (ONil, [], 0); (ONil, [], 0); (OBool false, [], 0); (ONil, [], 0);
+     (ONil, [(7, 2)], 98); (OErr EOther, [], 98); (ONil, [(7, 1)], 136); (ONil, [], 136); (OErr EClosed, [], 136)].
+Proof. vm_compute. split; reflexivity. Qed.
